@@ -4,7 +4,8 @@ progress-guarded fixed-point loops.  Multi-step cycles are NOT decided."""
 import ast
 
 from ..astutil import (call_name, calls_in, walk_no_nested, params_of, kw,
-                       is_const, single_defs)
+                       is_const, single_defs, module_sentinels,
+                       expand_locals)
 from ..cfg import (cfg_of, loop_body_paths, expr_owner_node, root_name,
                    facts_at, reaching_defs, enumerate_paths, decompose)
 from ..shape import parse_expr
@@ -115,10 +116,81 @@ def _var_change(path, var):
                 net += v.right.value
                 kind = kind or 'const'
                 continue
+            lin = _linear_net(path, var)
+            if lin is not None:
+                return ('const', lin)
             return ('jump', unparse(a))
     if kind == 'const':
         return ('const', net)
     return ('same', )
+
+
+def _linear_net(path, var):
+    """Net constant change of ``var`` along the path when the variable
+    and the locals computed from it are linear in its value at the start of
+    the path (``end = i + 12; i = end``); opaque names (decoded lengths)
+    may only add to it - the same assumption as for ``i += n + c``."""
+    env = {var: {'@0': 1}}
+
+    def lev(e):
+        if isinstance(e, ast.Constant) and isinstance(
+                e.value, int) and not isinstance(e.value, bool):
+            return {1: e.value}
+        if isinstance(e, ast.Name):
+            return dict(env.get(e.id, {e.id: 1}))
+        if isinstance(e, ast.BinOp) and isinstance(e.op, (ast.Add, ast.Sub)):
+            a_, b_ = lev(e.left), lev(e.right)
+            if a_ is None or b_ is None:
+                return None
+            sg = 1 if isinstance(e.op, ast.Add) else -1
+            for k_, v_ in b_.items():
+                a_[k_] = a_.get(k_, 0) + sg * v_
+            return a_
+        return None
+
+    for n in path.nodes[:-1]:
+        a = n.ast
+        if n.kind != 'stmt':
+            continue
+        if isinstance(a, ast.AugAssign) and isinstance(a.target, ast.Name):
+            if a.target.id in env or a.target.id == var:
+                if not isinstance(a.op, (ast.Add, ast.Sub)):
+                    if a.target.id == var:
+                        return None
+                    env.pop(a.target.id, None)
+                    continue
+                v = lev(ast.BinOp(left=ast.Name(id=a.target.id,
+                                                ctx=ast.Load()),
+                                  op=a.op, right=a.value))
+                if v is None:
+                    if a.target.id == var:
+                        return None
+                    env.pop(a.target.id, None)
+                else:
+                    env[a.target.id] = v
+        elif isinstance(a, ast.Assign):
+            for t in a.targets:
+                if isinstance(t, ast.Name):
+                    v = lev(a.value)
+                    if v is None:
+                        if t.id == var:
+                            return None
+                        env.pop(t.id, None)
+                    else:
+                        env[t.id] = v
+                else:
+                    for nm in ast.walk(t):
+                        if isinstance(nm, ast.Name) and isinstance(
+                                nm.ctx, ast.Store):
+                            if nm.id == var:
+                                return None
+                            env.pop(nm.id, None)
+    f_ = env[var]
+    if f_.get('@0', 0) != 1:
+        return None
+    if any(v_ < 0 for k_, v_ in f_.items() if k_ not in ('@0', 1)):
+        return None
+    return f_.get(1, 0)
 
 
 def _net_increment(path, var):
@@ -243,6 +315,8 @@ def classify_loop(m, f, loop):
 
 def _worklist(cfg, loop, paths, w):
     bad = []
+    sents = module_sentinels(getattr(cfg.func, '_module', None)) if getattr(
+        cfg.func, '_module', None) is not None else set()
     for p in paths:
         pops = [c for (i, n, c) in path_method_calls(p)
                 if unparse(c.func.value) == w
@@ -266,6 +340,20 @@ def _worklist(cfg, loop, paths, w):
                     'append', 'extend', 'insert', 'appendleft'):
                 continue
             for a in c.args:
+                # locals computed from the popped element
+                # ("child_depth = cur_depth + 1") count as derived
+                from ..astutil import subst
+                defs_ = single_defs(cfg.func)
+                for _k in range(3):
+                    loc_ = {x.id for x in ast.walk(a)
+                            if isinstance(x, ast.Name)
+                            and x.id in defs_ and x.id not in popped
+                            and x.id != w
+                            and not any(isinstance(y, ast.Call)
+                                        for y in ast.walk(defs_[x.id]))}
+                    if not loc_:
+                        break
+                    a = subst(a, {k_: defs_[k_] for k_ in loc_})
                 names = {x.id for x in ast.walk(a)
                          if isinstance(x, ast.Name)}
                 comp_vars = set()
@@ -275,8 +363,28 @@ def _worklist(cfg, loop, paths, w):
                             if isinstance(y, ast.Name):
                                 comp_vars.add(y.id)
                 free = names - comp_vars - {'reversed', 'True', 'False',
-                                            'None'}
+                                            'None', 'zip', 'list', 'tuple',
+                                            'iter', 'enumerate'}
                 derived = all(v in popped for v in free)
+                if not derived and isinstance(a, ast.Name) and \
+                        a.id in sents and c.func.attr != 'extend':
+                    # an identity marker (NAME = object() at module level):
+                    # fine if the iteration that pops it pushes nothing
+                    quiet = True
+                    seen_marker_path = False
+                    for p2 in paths:
+                        if any((f'{v} is {a.id}', True) in set(p2.facts)
+                               for v in popped):
+                            seen_marker_path = True
+                            if any(unparse(c2.func.value) == w
+                                   and c2.func.attr in (
+                                       'append', 'extend', 'insert',
+                                       'appendleft')
+                                   for (_i, _n, c2) in path_method_calls(
+                                       p2)):
+                                quiet = False
+                    if quiet and seen_marker_path:
+                        continue
                 selfpush = (isinstance(a, ast.Tuple) and a.elts
                             and isinstance(a.elts[0], ast.Name)
                             and a.elts[0].id in popped) or (
